@@ -94,8 +94,8 @@ func VerifC12Race() {
 func VerifC12Interleaved() {
 	const n = 64
 	cs, vc := c12State(n)
-	ctr, other := verifU64("counter"), verifU64("other_counter")
-	verifAssume(ctr < 1<<63 && other < 1<<63)
+	ctr, other, third := verifU64("counter"), verifU64("other_counter"), verifU64("third_counter")
+	verifAssume(ctr < 1<<63 && other < 1<<63 && third < 1<<63)
 	relayed := verifBool("relayed")
 	pkt := verifBytes("packet", 40)
 	otherDelivered := false
@@ -103,6 +103,13 @@ func VerifC12Interleaved() {
 		cs.decryptLock.Lock()
 		otherDelivered = cs.window.Update(c12Log, other)
 		cs.decryptLock.Unlock()
+		// ... and a third goroutine completes yet another counter (it may slide the window past everything)
+		cs.decryptLock.Lock()
+		thirdDelivered := cs.window.Update(c12Log, third)
+		cs.decryptLock.Unlock()
+		if third == ctr && thirdDelivered {
+			otherDelivered = true
+		}
 		vc.hook = nil
 	}
 	var err error
@@ -111,8 +118,8 @@ func VerifC12Interleaved() {
 	} else {
 		_, err = cs.Decrypt(c12Log, ctr, pkt, make([]byte, 12))
 	}
-	if other == ctr {
-		verifAssert(!(otherDelivered && err == nil), "two goroutines racing on the same counter: at most one acts on it")
+	if other == ctr || third == ctr {
+		verifAssert(!(otherDelivered && err == nil), "goroutines racing on the same counter (with any other delivery in between): at most one acts on it")
 	}
 	if err == nil {
 		verifAssert(!cs.window.Check(c12Log, ctr), "an acted-upon counter is marked as seen")
